@@ -4,6 +4,7 @@
 #include "common.h"
 #include "algops.h"
 #include "csops.h"
+#include "iterops.h"
 #ifdef VERIF_WITH_BALANCE
 #include "balops.h"
 #endif
@@ -290,6 +291,7 @@ static void doCall(State &s, Toks &t) {
 #ifdef VERIF_WITH_BALANCE
   } else if (balCall(name, t, m, s.q, s.qd, o)) {
 #endif
+  } else if (iterCall(name, t, m, s.C, s.q, o)) {
   } else if (csCall(name, t, m, s.C, s.q, s.qd, s.qdd, s.tau, fe, o)) {
   } else {
     o.str("bad-call");
